@@ -979,6 +979,12 @@ func (ip *Interp) runClosure(fn *ssa.Function, args []any, binds []any, depth in
 					}
 					continue
 				}
+				if sc != nil {
+					if res, ok := libModel(fnFullName(sc), args); ok {
+						env[x] = res
+						continue
+					}
+				}
 				ip.dirty = true
 				forget()
 				delete(env, x)
@@ -1154,6 +1160,12 @@ func foldAny(op token.Token, l, r any) (any, bool) {
 	if op != token.EQL && op != token.NEQ {
 		return nil, false
 	}
+	// two abstract heap objects: identity
+	if lo, isLO := l.(*iStruct); isLO && !lo.val {
+		if ro, isRO := r.(*iStruct); isRO && !ro.val {
+			return constant.MakeBool((lo == ro) == (op == token.EQL)), true
+		}
+	}
 	nilness := func(x any) (bool, bool) { // (isNil, known)
 		switch x.(type) {
 		case iNil:
@@ -1310,7 +1322,7 @@ func (m *Model) evalOnNode(typeName string, fields map[string]any) (res any, han
 			return nil, true // a child evaluation
 		}
 		for _, a := range args {
-			if a == any(node) && sc != ev && inPkg(sc, "evaluator") && sc.Signature.Recv() != nil {
+			if a == any(node) && sc != ev && inPkg(sc, "evaluator") { // a method of the evaluator, or a plain function of the package
 				// only functions that take this concrete node type are handlers (wrappers taking ast.Node are dispatch plumbing)
 				for i := 0; i < sc.Signature.Params().Len(); i++ {
 					if types.Identical(sc.Signature.Params().At(i).Type(), types.NewPointer(nt)) {
@@ -1327,4 +1339,96 @@ func (m *Model) evalOnNode(typeName string, fields map[string]any) (res any, han
 		r = nil
 	}
 	return r, handlers, ip.stuck
+}
+
+// libModel: pure standard-library functions on known arguments (no effect on memory).
+func libModel(name string, args []any) (any, bool) {
+	str := func(i int) (string, bool) {
+		if i < len(args) {
+			if c, ok := args[i].(constant.Value); ok && c.Kind() == constant.String {
+				return constant.StringVal(c), true
+			}
+		}
+		return "", false
+	}
+	switch name {
+	case "slices.Contains":
+		if len(args) != 2 {
+			return nil, false
+		}
+		sl, ok := args[0].(iSlice)
+		if !ok {
+			return nil, false
+		}
+		var res any = constant.MakeBool(false)
+		for _, e := range sl.arr.elems[sl.lo:sl.high] {
+			eq, ok := foldAny(token.EQL, e, args[1])
+			if !ok {
+				return nil, false
+			}
+			if c, isC := eq.(constant.Value); isC {
+				if constant.BoolVal(c) {
+					return constant.MakeBool(true), true
+				}
+				continue
+			}
+			if rc, isC := res.(constant.Value); isC && !constant.BoolVal(rc) {
+				res = eq
+			} else {
+				res = iSym{op: token.LOR, x: res, y: eq}
+			}
+		}
+		return res, true
+	case "strings.HasPrefix", "strings.HasSuffix", "strings.Contains", "strings.EqualFold":
+		a, ok1 := str(0)
+		b, ok2 := str(1)
+		if !ok1 || !ok2 {
+			return nil, false
+		}
+		switch name {
+		case "strings.HasPrefix":
+			return constant.MakeBool(strings.HasPrefix(a, b)), true
+		case "strings.HasSuffix":
+			return constant.MakeBool(strings.HasSuffix(a, b)), true
+		case "strings.Contains":
+			return constant.MakeBool(strings.Contains(a, b)), true
+		}
+		return constant.MakeBool(strings.EqualFold(a, b)), true
+	case "strings.Index":
+		a, ok1 := str(0)
+		b, ok2 := str(1)
+		if ok1 && ok2 {
+			return constant.MakeInt64(int64(strings.Index(a, b))), true
+		}
+	case "strings.TrimSpace", "strings.ToLower", "strings.ToUpper":
+		a, ok := str(0)
+		if !ok {
+			return nil, false
+		}
+		switch name {
+		case "strings.TrimSpace":
+			return constant.MakeString(strings.TrimSpace(a)), true
+		case "strings.ToLower":
+			return constant.MakeString(strings.ToLower(a)), true
+		}
+		return constant.MakeString(strings.ToUpper(a)), true
+	case "strings.TrimPrefix", "strings.TrimSuffix", "strings.Trim", "strings.TrimLeft", "strings.TrimRight":
+		a, ok1 := str(0)
+		b, ok2 := str(1)
+		if !ok1 || !ok2 {
+			return nil, false
+		}
+		switch name {
+		case "strings.TrimPrefix":
+			return constant.MakeString(strings.TrimPrefix(a, b)), true
+		case "strings.TrimSuffix":
+			return constant.MakeString(strings.TrimSuffix(a, b)), true
+		case "strings.Trim":
+			return constant.MakeString(strings.Trim(a, b)), true
+		case "strings.TrimLeft":
+			return constant.MakeString(strings.TrimLeft(a, b)), true
+		}
+		return constant.MakeString(strings.TrimRight(a, b)), true
+	}
+	return nil, false
 }
